@@ -6,12 +6,16 @@ package shimagent
 //vsym:entry H07_shim
 //vsym:entry H07_upstream3
 //vsym:entry H07_time_passes
+//vsym:entry H07_partial_purge
+//vsym:entry H07_second_client
 //vsym:replay same-harness repeat=6
-//vsym:expect-cover C07.listed-valid C07.purged-expired-upstream C07.upstream-fault C07.time-passes
+//vsym:expect-cover C07.listed-valid C07.purged-expired-upstream C07.upstream-fault C07.time-passes C07.second-client-acted
 //vsym:expect-cover-peek C07.purged-expired-memory C07.orphan-dropped C07.empty-list-keeps
 //vsym:bound H07_time_passes: one hardware certificate (KeyID decodes or not, with or without a trailing newline) registered through AddHardCert at an arbitrary instant inside its arbitrary window, optionally listed, then List / Signers / Sign at an arbitrary later instant past the end of the window; both modes
+//vsym:bound H07_partial_purge: 0..1 in-memory certificates and exactly two upstream identities (a certificate, then a certificate / plain key / the in-memory certificate), symbolic windows and clock, both modes; the underlying agent's first or second call after its List (a Remove of the purge, or the forwarded operation) fails; List / Signers / Sign: an operation that reports success hands out no certificate outside its window
+//vsym:bound H07_second_client: one in-memory hardware certificate over key 1 (symbolic window) and the plain key 1 in the underlying agent (optionally also a certificate with a symbolic window); while List runs, a second client of the underlying agent adds a certificate with a symbolic window, or removes the plain key, just before the shim's second or third call; both modes for the addition: the listing holds no certificate outside its window and (upstream mode) no hardware certificate next to a non-empty key list that lacks its key
 //vsym:bound H07_upstream3: no in-memory certificate, exactly three upstream identities (two certificates and a third certificate or plain key), symbolic windows and clock, both modes, List / Signers / Sign
-//vsym:bound H07_shim: pre-state under the representation invariant with 0..1 (thorough 0..2) in-memory certificates and 0..2 upstream identities (plain key of 2 possible keys, a certificate over either key, or the in-memory certificate itself also held upstream); every validity window and the clock symbolic; both modes; every map iteration order; the first (thorough: one of the first two) upstream call may fail; one operation from List / Signers / Sign
+//vsym:bound H07_shim: pre-state under the representation invariant with 0..1 in-memory certificates and 0..2 upstream identities (thorough also: 0..2 in-memory certificates with 0..1 upstream identities) (plain key of 2 possible keys, a certificate over either key, or the in-memory certificate itself also held upstream); every validity window and the clock symbolic; both modes; every map iteration order; the first (thorough: one of the first two) upstream call may fail; one operation from List / Signers / Sign
 
 import (
 	"time"
@@ -32,8 +36,17 @@ func h07MustAccept(c *ssh.Certificate) bool {
 
 func H07_shim() {
 	maxMem, maxUp := 1, 2
+	g07NFault = 2
 	if vThorough() {
-		maxMem, maxUp = 2, 2 // three upstream identities are covered by H07_upstream3
+		// two families beyond the quick bounds (their product does not finish
+		// within the tier's budget): a second in-memory certificate, or a
+		// fault at the second call of the underlying agent; three upstream
+		// identities are covered by H07_upstream3
+		if vChoose(2, "thorough-family") == 0 {
+			maxMem, maxUp = 2, 1
+		} else {
+			g07NFault = 3
+		}
 	}
 	h07Scenario(maxMem, maxUp, -1)
 }
@@ -42,6 +55,7 @@ func H07_shim() {
 // that the swap-remove over the cached listing is exercised with several
 // removals in one pass.
 func H07_upstream3() {
+	g07Fault = false
 	h07Scenario(0, 3, 3)
 }
 
@@ -121,6 +135,87 @@ func H07_time_passes() {
 	vReach("C07.time-passes")
 }
 
+// H07_partial_purge: a purge that fails half way. One of the underlying
+// agent's calls after its List fails while other removals of the same pass
+// succeed; whatever the operation then reports, a reported success hands out
+// no certificate outside its window.
+func H07_partial_purge() {
+	g07Fault = true
+	h07Scenario(1, 2, 2)
+}
+
+// H07_second_client: the shim lock does not cover the underlying agent, so a
+// second client may change it while a listing is being produced.  Whatever
+// the listing is assembled from, it is one consistent answer: nothing outside
+// its window, no hardware certificate next to keys that lack its key.
+func H07_second_client() {
+	vMapOrderAll()
+	mwClock = vNondetI64("now")
+	vAssume(vAnd(mwClock >= 0, mwClock < 1<<62))
+	up := &mwUpstream{failAt: -1}
+	kind := vChoose(2, "second-client")
+	noUp := false
+	if kind == 0 {
+		noUp = vChoose(2, "no-upstream-mode") == 1
+	}
+	s := mwNewServer(up, noUp)
+	hw := mwNewCert(1, vNondetU64("mem-valid-after"), vNondetU64("mem-valid-before"), false)
+	mwPutMem(s, hw)
+	mwUpKey(up, 1, "k")
+	if vChoose(2, "upstream-certificate") == 1 {
+		mwUpCert(up, mwNewCert(2, vNondetU64("up-valid-after"), vNondetU64("up-valid-before"), false), "c")
+	}
+	up.intrudeAt = 1 + vChoose(2, "second-client-before-call")
+	switch kind {
+	case 0:
+		late := mwNewCert(2, vNondetU64("late-valid-after"), vNondetU64("late-valid-before"), false)
+		up.intrude = func() { mwUpCert(up, late, "late") }
+	case 1:
+		up.intrude = func() {
+			for i, id := range up.ids {
+				if string(id.blob) == string(mwKeyBlob(1)) {
+					up.ids = append(up.ids[:i:i], up.ids[i+1:]...)
+					break
+				}
+			}
+		}
+	}
+	var listed []*agent.Key
+	var err error
+	crashed := vCatch(func() { listed, err = s.List() })
+	vAssert(!crashed, "C07.no-crash")
+	if crashed || err != nil {
+		return
+	}
+	hwListed, keyListed, others := false, false, 0
+	for _, k := range listed {
+		if c := mwCertByBlob(k.Blob); c != nil {
+			vAssert(!h07MustReject(c), "C07.no-listed-certificate-outside-its-window")
+			if c == hw {
+				hwListed = true
+				continue
+			}
+			if string(c.Key.Marshal()) == string(mwKeyBlob(1)) {
+				keyListed = true
+			}
+		} else if string(k.Blob) == string(mwKeyBlob(1)) {
+			keyListed = true
+		}
+		others++
+	}
+	if !noUp {
+		vAssert(!(hwListed && others > 0 && !keyListed), "C07.no-keyless-certificate-next-to-a-key-list-that-lacks-its-key")
+	}
+	vCover(up.intrude == nil, "C07.second-client-acted")
+}
+
+// g07Fault: with an exact number of upstream identities, whether a call after
+// the underlying agent's List fails (H07_partial_purge) or none does.
+var g07Fault bool
+
+// g07NFault: how many of the first calls of the underlying agent may fail (+1 for "none")
+var g07NFault int
+
 func h07Scenario(maxMem, maxUp, exactUp int) {
 	vMapOrderAll()
 	mwClock = vNondetI64("now")
@@ -171,14 +266,17 @@ func h07Scenario(maxMem, maxUp, exactUp int) {
 			mwUpCert(up, c, "c")
 		}
 	}
-	nFault := 2
-	if vThorough() {
-		nFault = 3
+	nFault := g07NFault
+	if nFault == 0 {
+		nFault = 2
 	}
 	if exactUp >= 0 {
 		nFault = 1
 	}
 	up.failAt = vChoose(nFault, "upstream-fault-at") - 1
+	if exactUp >= 0 && g07Fault {
+		up.failAt = 1 + vChoose(2, "upstream-fault-after-list")
+	}
 
 	// pre-state facts
 	listEmpty := len(up.ids) == 0
@@ -233,11 +331,42 @@ func h07Scenario(maxMem, maxUp, exactUp int) {
 		vAssert(len(listed) == 0 && len(signers) == 0, "C07.no-partial-listing-on-failure")
 		vReach("C07.upstream-fault")
 	}
-	if err != nil || up.failed {
-		// refusing is always safe; and when an upstream call failed the purge
-		// may be incomplete by design (remove() tolerates the underlying
-		// agent's error for certificates it also held in memory), so nothing
-		// further is claimed on such paths
+	if err != nil {
+		return // refusing is always safe
+	}
+	if up.failed {
+		// An upstream call failed and the operation nevertheless reported
+		// success.  remove() deliberately ignores the underlying agent's
+		// error for a certificate it also held in memory (a "not found" from
+		// the agent cannot be told from a transient failure there), so for
+		// such a certificate the purge of the underlying agent may be
+		// incomplete by design; failures of the underlying agent are not among
+		// the histories C07 quantifies over and nothing is claimed for them.
+		// For a certificate held by the underlying agent only there is no
+		// such tolerance: a purge that failed is an error, so a reported
+		// success hands out no such certificate outside its window.
+		inMem := func(c *ssh.Certificate) bool {
+			for _, m := range mem {
+				if m == c {
+					return true
+				}
+			}
+			return false
+		}
+		for _, k := range listed {
+			if c := mwCertByBlob(k.Blob); c != nil && !inMem(c) {
+				vAssert(!h07MustReject(c), "C07.no-listed-certificate-outside-its-window")
+			}
+		}
+		for _, sg := range signers {
+			if c := mwCertByBlob(sg.PublicKey().Marshal()); c != nil && !inMem(c) {
+				vAssert(!h07MustReject(c), "C07.no-listed-certificate-outside-its-window")
+			}
+		}
+		if op == 2 && !inMem(signTarget) {
+			vAssert(!h07MustReject(signTarget), "C07.sign-with-purged-certificate-fails")
+		}
+		vReach("C07.fault-yet-success")
 		return
 	}
 
